@@ -5,7 +5,7 @@
 //! run one of whose stop tests was decided within rounding of its threshold (`marginal_stop`).
 //! The property's oracle is tools/props/c07.py (exact rationals).
 #![allow(dead_code)]
-use crate::c06::{as_kind, as_kind_named, expand_roots, marginal_steps, pick_itermax, pick_tol, show_solver, small_root, solver_err_kind, times_quadratic, Counting};
+use crate::c06::{as_kind, as_kind_named, expand_roots, marginal_steps, pick_itermax, pick_tol, pow2, show_solver, small_root, solver_err_kind, times_quadratic, Counting};
 use crate::polyio::*;
 use crate::util::*;
 use spindalis::solvers::{newton_raphson_method, SolveMode, SolverError};
@@ -94,6 +94,36 @@ fn sup_abs(terms: &[(f64, f64)], a: f64, b: f64) -> f64 {
     s
 }
 
+/// `step^2 * sum |c| sup{ |t|^e : a <= |t| <= b }`, the factor taken into every term (in the logarithm where a factor
+/// alone leaves the range): a second derivative of 1e-465 (8 x^-3 at x = 1e155) times a squared step of 1e310 is an
+/// ordinary number although neither factor is a double - the bound used to collapse to its rounding allowance there
+/// and reported correct code (thorough tier, seeds 1 and 2: Newton on 4/x doubles x 514 times against a tolerance of 50 %)
+fn sup_abs_times(terms: &[(f64, f64)], a: f64, b: f64, step: f64) -> f64 {
+    // the factor is step^2
+    if step == 0.0 {
+        return 0.0;
+    }
+    let mut s = 0.0;
+    for (c, e) in terms {
+        if *c == 0.0 {
+            continue;
+        }
+        let pt = if *e >= 0.0 { b } else { a };
+        let plain = pt.powf(*e);
+        let direct = c * plain * step * step;
+        let safe = |v: f64| v.is_finite() && v.abs() >= f64::MIN_POSITIVE;
+        s += if safe(plain) && safe(c * plain) && safe(c * plain * step) && (direct == 0.0 || safe(direct)) && safe(step * step) {
+            direct
+        } else if pt > 0.0 && pt.is_finite() && step.is_finite() {
+            // exp(e ln t + 2 ln step) errs by about |e ln t| u <= 1e-13 relative; the bound carries a factor 1 + 1e-6
+            c * (*e * pt.ln() + 2.0 * step.abs().ln()).exp()
+        } else {
+            direct
+        };
+    }
+    s
+}
+
 /// Independent re-derivation, through the public API, of what the statement promises about a returned value:
 /// `x` is finite, and the last step really was below the requested relative tolerance.  The harness takes one more
 /// Newton step from the returned `x` (target and derivative evaluated by the library itself): with tau = tol/100 the
@@ -137,12 +167,17 @@ fn step_verdict(line: &str, answer: &str) -> Option<Result<(), String>> {
     }
     let gx = crate::polyops::eval_uni(&g, x).ok()?;
     let dgx = crate::polyops::eval_uni(&dg, x).ok()?;
-    let m = sup_abs(&td2, lo, hi);
+    // (M/2) s^2 with the squared step taken into every term (see `sup_abs_times`)
+    let half_m_s2 = 0.5 * sup_abs_times(&td2, lo, hi, s);
     // absolute floor of binary64 (as in the exact oracle): every power and product may be off by 2^-1074 in absolute
     // terms, and a quotient g/g' may underflow to 0 (a huge derivative next to a tiny residual)
     let floor = f64::from_bits(16) * (1.0 + tg.iter().map(|(c, _)| *c).sum::<f64>() + sup_abs(&tdg, lo, hi)) + 1e-290;
+    // ... and the derivative itself is known only to 2^-1074 (times its coefficients) in absolute terms: over a step of
+    // length s that is s * 2^-1074 * (terms + sum |c'|) of residual - nothing at ordinary x, but x^-2.5 at x = 1e129 is a
+    // subnormal number and the step is 1e129 long (thorough tier, seed 2: Newton on 4.85 x^-1.5 multiplies x by 5/3 per pass)
+    let floor = floor + s * f64::from_bits(16) * (tdg.len() as f64 + tdg.iter().map(|(c, _)| *c).sum::<f64>());
     let slack = 1e-9 * (sup_abs(&tg, lo, hi) + hi * sup_abs(&tdg, lo, hi)) + floor;
-    let bound = 0.5 * m * s * s * (1.0 + 1e-6) + slack;
+    let bound = half_m_s2 * (1.0 + 1e-6) + slack;
     if !bound.is_finite() || bound.is_nan() {
         return Some(Ok(()));
     }
@@ -349,6 +384,7 @@ pub fn generate(seed: u64, thorough: bool, emit: &mut dyn FnMut(String)) {
         }
     }
     generate_hardening(seed, thorough, emit);
+    generate_round3(seed, thorough, emit);
 }
 
 /// an antiderivative of g (the library's derivative of it is g up to rounding)
@@ -501,5 +537,194 @@ fn generate_hardening(seed: u64, thorough: bool, emit: &mut dyn FnMut(String)) {
                 }
             }
         }
+    }
+}
+
+// ---------------------------------------------------------------- round-3 families
+
+/// `top x^n + b x - c` (optionally mirrored x -> -x) as a dense SimplePolynomial or a three-term IntermediatePolynomial
+fn top_poly(n: usize, top: f64, quad: f64, b: f64, c: f64, mirror: bool, simple: bool, rng: &mut Rng) -> AnyPoly {
+    use spindalis_core::polynomials::structs::{IntermediatePolynomial, SimplePolynomial};
+    use spindalis_core::polynomials::Term;
+    let sg = |k: usize| if mirror && k % 2 == 1 { -1.0 } else { 1.0 };
+    if simple {
+        let mut cs = vec![0.0; n + 1];
+        cs[0] = -c;
+        cs[1] = b * sg(1);
+        if quad != 0.0 {
+            cs[2] = quad;
+        }
+        cs[n] += top * sg(n);
+        AnyPoly::S(SimplePolynomial { coefficients: cs, variable: *rng.pick(&[Some('x'), Some('y'), Some('λ'), None]) })
+    } else {
+        let name = *rng.pick(&["x", "x", "t", "λ", "変", "𝑥", "e"]);
+        let mut terms = vec![
+            Term { coefficient: top * sg(n), variables: vec![(name.to_string(), n as f64)] },
+            Term { coefficient: b * sg(1), variables: vec![(name.to_string(), 1.0)] },
+            Term { coefficient: -c, variables: vec![] },
+        ];
+        if quad != 0.0 {
+            terms.insert(1, Term { coefficient: quad, variables: vec![(name.to_string(), 2.0)] });
+        }
+        if rng.chance(1, 3) {
+            terms.reverse();
+        }
+        AnyPoly::I(IntermediatePolynomial { terms, variables: vec![name.to_string()] })
+    }
+}
+
+fn generate_round3(seed: u64, thorough: bool, emit: &mut dyn FnMut(String)) {
+    let mut rng = Rng::new(seed ^ 0xC07_0003_70B);
+    // ---- (5) THE EDGE OF THE GRAMMAR: the largest exponent the parser admits, MAX_POWER = 65536 = 2^16 exactly (a u16
+    //      conversion maps it to 0), its neighbours, the other integer widths (2^7, 2^8, 2^15: i8 / u8 / i16) and
+    //      hand-built exponents beyond the limit.  Target  g(x) = a x^n + b x - c  with the root r chosen so that the top
+    //      term is numerically alive in the slope:  rho = n a r^(n-1) / b  in 0.02..30 (|r| within ~1e-3 of 1 for
+    //      n = 65536: further in the term has underflowed against the others, further out it overflows).  Both modes
+    //      (extrema: p = a/n x^n + b/2 x^2 - c x has the degree at the limit), both polynomial types (the dense vector of
+    //      n + 1 coefficients and the sparse term list), both signs of the root, starts on either side, tolerances
+    //      1e-7..1e-2 %.  A power rule that loses or truncates the top exponent leaves a first-order iteration whose
+    //      returned value violates the statement's second-order residual bound (tools/props/c07.py, interval arithmetic).
+    //      Caps are small: a run that degenerates to NaN costs `cap` evaluations of 65537 terms.
+    let mut tops: Vec<usize> = Vec::new();
+    let reps = if thorough { 12 } else { 1 };
+    for _ in 0..reps {
+        tops.extend(std::iter::repeat(65536).take(36));
+        tops.extend_from_slice(&[65535, 65535, 65535, 65537, 65537, 65537, 65534, 32767, 32769, 255, 257, 128, 128, 127, 129, 131072, 131072, 100000, 70000, 4096, 1000]);
+        tops.extend(std::iter::repeat(32768).take(6));
+        tops.extend(std::iter::repeat(256).take(6));
+    }
+    for (i, &top_exp) in tops.iter().enumerate() {
+        let simple = i % 2 == 0;
+        let extrema = i % 3 == 2;
+        // the polynomial the caller passes has degree `top_exp`; the target's top exponent is one less in extrema mode
+        let n = if extrema { top_exp - 1 } else { top_exp };
+        let a = match rng.below(6) {
+            0 | 1 => 1.0,
+            2 => pow2(-16),
+            3 => pow2(-(rng.range(1, 40) as i32)),
+            4 => rng.range(2, 9) as f64,
+            _ => rng.uniform(0.3, 3.0),
+        };
+        let b = *rng.pick(&[1.0, 1.0, 2.0, 0.5, 0.75, 3.0]);
+        let rho = if rng.chance(7, 10) { 10f64.powf(rng.uniform(-1.7, 0.29)) } else { 10f64.powf(rng.uniform(0.3, 1.5)) };
+        // r^(n-1) = rho b / (n a)
+        let r = ((rho * b / (n as f64 * a)).ln() / (n as f64 - 1.0)).exp();
+        if !(r.is_finite() && r > 0.0) || (n as f64) * r.ln() > 600.0 {
+            continue;
+        }
+        let quad = if rng.chance(1, 5) { *rng.pick(&[0.25, -0.125, 0.5]) } else { 0.0 };
+        let c = a * r.powf(n as f64) + quad * r * r + b * r;
+        // the start: mostly to the right of the root (monotone convergence), sometimes a little to the left, on it, at 1
+        let room = (2e-4f64).min(20.0 / n as f64 * 3.0).max(1e-6) * if n < 5000 { 50.0 } else { 1.0 };
+        let x0 = match rng.below(8) {
+            0 => r * (1.0 - room * rng.uniform(0.01, 0.2)),
+            1 => r,
+            2 if n as f64 * (1.0 - r).abs() < 30.0 => 1.0,
+            _ => r * (1.0 + room * 10f64.powf(rng.uniform(-2.0, 0.0))),
+        };
+        let mirror = rng.chance(1, 4);
+        let x0 = if mirror { -x0 } else { x0 };
+        // the mirrored polynomial g(-x): coefficients of odd powers change sign; the quadratic and constant stay
+        let tol = match rng.below(10) {
+            0 => pick_tol(&mut rng, true),
+            1 => 1e-2,
+            2 => 1e-3,
+            _ => *rng.pick(&[1e-7, 1e-6, 1e-6, 1e-5, 1e-4]),
+        };
+        let itermax = *rng.pick(&[60usize, 100, 150]);
+        let p = if extrema {
+            // p = a/top_exp x^top_exp + (quad/3 x^3) + b/2 x^2 - c x  (+ constant): the library's derivative is g up to rounding
+            let lead = a / top_exp as f64;
+            match top_poly(top_exp, lead, 0.0, 0.0, 0.0, false, simple, &mut rng) {
+                AnyPoly::S(mut q) => {
+                    let sg = |k: usize| if mirror && k % 2 == 0 { -1.0 } else { 1.0 };
+                    // mirrored target g(-x) = d/dx [ -P(-x) ]
+                    q.coefficients[top_exp] = lead * sg(top_exp);
+                    q.coefficients[0] = rng.range(-3, 3) as f64;
+                    q.coefficients[1] = -c;
+                    q.coefficients[2] = b / 2.0 * sg(2);
+                    q.coefficients[3] += quad / 3.0;
+                    AnyPoly::S(q)
+                }
+                AnyPoly::I(mut q) => {
+                    use spindalis_core::polynomials::Term;
+                    let name = q.variables[0].clone();
+                    let sg = |k: usize| if mirror && k % 2 == 0 { -1.0 } else { 1.0 };
+                    q.terms = vec![
+                        Term { coefficient: lead * sg(top_exp), variables: vec![(name.clone(), top_exp as f64)] },
+                        Term { coefficient: b / 2.0 * sg(2), variables: vec![(name.clone(), 2.0)] },
+                        Term { coefficient: -c, variables: vec![(name.clone(), 1.0)] },
+                    ];
+                    if quad != 0.0 {
+                        q.terms.push(Term { coefficient: quad / 3.0, variables: vec![(name.clone(), 3.0)] });
+                    }
+                    AnyPoly::I(q)
+                }
+            }
+        } else {
+            top_poly(n, a, quad, b, c, mirror, simple, &mut rng)
+        };
+        emit_req(emit, &p, x0, tol, itermax, extrema);
+    }
+
+    // ---- (6) THE EDGE OF THE NUMBER RANGE.  (a) the whole polynomial scaled by 2^-1000..2^-1045 (coefficients and
+    //      residuals subnormal, quotients g/g' ordinary; powers of two with dyadic roots keep every operation exact:
+    //      `g * (1 / g')` overflows for a subnormal g' although g / g' is an ordinary number), (b) by 2^960..2^1005,
+    //      (c) the real line rescaled by 2^+-(100..330) (x^3 within a few binades of the largest / smallest double).
+    //      Every term, partial sum and quotient of the statement's own formula stays inside the range, so the monotone
+    //      case must still return its root and the residual bound must hold (the oracle's absolute floor is 2^-1070).
+    let n6 = if thorough { 16_000 } else { 640 };
+    for i in 0..n6 {
+        let simple = rng.chance(1, 2);
+        let extrema = rng.chance(1, 6);
+        let deg = 1 + rng.below(3) as usize;
+        let dyadic = rng.chance(1, 2);
+        let with_zero = rng.chance(1, 5);
+        let ms = separated_roots(&mut rng, deg, with_zero, dyadic);
+        let lead = if dyadic { *rng.pick(&[1.0, -1.0, 2.0, 0.5, 4.0]) } else { *rng.pick(&[1.0, -1.0, 3.0, 0.3, -0.7]) };
+        let (g, scale): (Vec<f64>, f64) = match i % 4 {
+            0 | 1 => {
+                // (a) tiny amplitude
+                let e = if i % 8 < 2 { rng.range(1040, 1060) as i32 } else { rng.range(1000, 1040) as i32 };
+                let k = pow2(-e);
+                (expand_roots(lead, &ms).iter().map(|c| c * k).collect(), 1.0)
+            }
+            2 => {
+                // (b) huge amplitude
+                let k = pow2(rng.range(960, 1005) as i32);
+                (expand_roots(lead, &ms).iter().map(|c| c * k).collect(), 1.0)
+            }
+            _ => {
+                // (c) the real line rescaled: roots m s, coefficients a_k s^(1-k)
+                let e = rng.range(100, 330) as i32 * if rng.chance(1, 2) { 1 } else { -1 };
+                let sc = pow2(e);
+                let unit = expand_roots(lead, &ms);
+                (unit.iter().enumerate().map(|(k, a)| a * pow2(e * (1 - k as i32))).collect(), sc)
+            }
+        };
+        if g.iter().any(|c| !c.is_finite()) {
+            continue;
+        }
+        let roots: Vec<f64> = ms.iter().map(|m| m * scale).collect();
+        let (lo, hi) = (roots[0], roots[roots.len() - 1]);
+        let span = (hi - lo).max(scale);
+        let x0 = match rng.below(8) {
+            0 => hi + span * rng.uniform(0.01, 0.5),
+            1 => hi + span * rng.uniform(0.5, 3.0),
+            2 => lo - span * rng.uniform(0.01, 0.5),
+            3 => lo - span * rng.uniform(0.5, 3.0),
+            4 => hi + scale * rng.range(1, 4) as f64,
+            5 => lo - scale * rng.range(1, 4) as f64,
+            6 => *rng.pick(&roots),
+            _ => lo + (hi - lo) * rng.unit() + scale * 0.0625,
+        };
+        let cs = if extrema { antiderivative(&g, 0.0) } else { g };
+        if cs.iter().any(|c| !c.is_finite()) {
+            continue;
+        }
+        let tol = *rng.pick(&[1e-6, 1e-5, 1e-4, 1e-3, 0.01, 0.1, 1.0, 10.0]);
+        let itermax = *rng.pick(&[2000usize, 3000]);
+        let p = as_kind_named(&cs, simple, &mut rng);
+        emit_req(emit, &p, x0, tol, itermax, extrema);
     }
 }
